@@ -171,7 +171,8 @@ def run_impl(p):
         sp = (h + len(str(ix))) % 9
         wrap = (lambda i: (i,)) if sp == 0 else (lambda i: (Ellipsis, i)) if sp == 1 else (lambda i: (i, Ellipsis)) if sp == 2 else (lambda i: i)
         if k == "int":
-            return r[wrap(ix["i"])]
+            # (the position as a Python int or as a numpy integer scalar of some width that holds it)
+            return r[wrap(gens.int_form(ix["i"], gens.INT_FORMS[(h + abs(ix["i"])) % len(gens.INT_FORMS)]))]
         if k == "list":
             if len(ix["is"]) % 2 == 0:
                 return r[list(ix["is"])]
